@@ -40,6 +40,21 @@ var genText = rapid.Custom(func(t *rapid.T) stats.B {
 	for i := 0; i < n; i++ {
 		b.WriteString(stats.From(t, hostile, "tok"))
 	}
+	// occasionally a long run, with lengths swept around small-buffer sizes
+	if stats.Pct(t, "longrun") >= 93 { // (high values, so that a shrunk case has no long run)
+		var n int
+		switch stats.Pick(t, 6, "runkind") {
+		case 0, 1, 2:
+			n = 100 + stats.Pick(t, 41, "run100") // 100..140
+		case 3:
+			n = 250 + stats.Pick(t, 12, "run250")
+		case 4:
+			n = 505 + stats.Pick(t, 14, "run512")
+		default:
+			n = 4088 + stats.Pick(t, 14, "run4096")
+		}
+		b.WriteString(strings.Repeat("x", n))
+	}
 	return stats.B(b.String())
 })
 
